@@ -66,7 +66,7 @@ func parseHTTPDateCompat(dateStr string) (t time.Time, err error) {
 	if os.Getenv("HTTPCACHE_ALLOW_UTC_DATETIMEFORMAT") == "1" {
 		// TODO(bartventer): PR Kubernetes to emit "GMT" per RFC 9110 §5.6.7.
 		// See k8s.io/kube-openapi/pkg/handler3/handler.go for "UTC" usage.
-		if t, err = time.Parse(time.RFC1123, dateStr); err == nil && !isGMT(t) {
+		if t, err = time.Parse(time.RFC1123, dateStr); err == nil && !isGMT(dateStr) {
 			return time.Time{}, errors.New("httpcache: HTTP-date not in GMT/UTC")
 		}
 		return t, err
